@@ -102,6 +102,12 @@ let parse_op (o : string) (impl_step : string) : zop =
   | "cmp" -> ZCmp (z_of_int (cmp_code f.(1)), nat 2, nat 3, f.(4) = "same", parse_cmode f.(5), not (Array.length f > 6 && f.(6) = "method"))
   | "cmps" -> ZCmpS (z_of_int (cmp_code f.(1)), nat 2, zi 3, f.(4) = "left", f.(5) = "same", parse_cmode f.(6))
   | "un" -> ZUn (z_of_int (un_code f.(1)), nat 2, parse_mode f.(3))
+  | "reduce" ->
+    let code = (match f.(1) with "sum" -> 0 | "min" -> 1 | "max" -> 2 | o -> failwith o) in
+    ZReduce (z_of_int code, nat 2, zs f.(3), (String.length impl_step >= 3 && String.sub impl_step 0 3 = "err"))
+  | "arg" ->
+    let code = (match f.(1) with "max" -> 0 | "min" -> 1 | o -> failwith o) in
+    ZArg (z_of_int code, nat 2, z_of_int (int_of_string f.(3)), (String.length impl_step >= 3 && String.sub impl_step 0 3 = "err"))
   | _ -> ZBase (parse_base_op o impl_step)
 
 let status_str dt = function
@@ -191,6 +197,7 @@ let gname = function
   | GLenOne -> "len-one" | GDestRefused -> "dest-refused" | GDestAlias -> "dest-alias"
   | GOrderMix -> "order-mix" | GScalarLeftView -> "scalar-left-view" | GShapeSoft -> "shape-soft"
   | GModeUnsupported -> "mode-unsupported" | GScalarShaped -> "scalar-shaped"
+  | GReduceDefault -> "reduce-default" | GFlatRawWindow -> "flat-raw-window"
   | GOther -> "other"
 
 let operand_ids (o : string) : int list =
@@ -199,7 +206,7 @@ let operand_ids (o : string) : int list =
   | "new" -> []
   | "copy" -> [int_of_string f.(1); int_of_string f.(2)]
   | "bin" | "cmp" -> [int_of_string f.(2); int_of_string f.(3)]
-  | "bins" | "cmps" | "un" -> [int_of_string f.(2)]
+  | "bins" | "cmps" | "un" | "reduce" | "arg" -> [int_of_string f.(2)]
   | _ -> (try [int_of_string f.(1)] with _ -> [])
 
 (* extension point: operand ids of operations added by other driver modules *)
@@ -220,9 +227,13 @@ let run_prog dt (prog : string) (impl : string) : outcome =
         let before = !m in
         let (m', r) = zstep_model !m op in
         m := m';
+        let axes_note = (match op with
+            | ZReduce (code, a, axes, _) when r <> RPanic ->
+              ";ax=" ^ fzs (zreduce_axes_after before code a axes)
+            | _ -> "") in
         let mstr = (match r with
             | RPanic -> "panic"
-            | _ -> status_str dt r ^ obs_model_str dt m') in
+            | _ -> status_str dt r ^ axes_note ^ obs_model_str dt m') in
         mout := mstr :: !mout;
         (match !s with
          | None -> sout := "?" :: !sout
@@ -231,7 +242,9 @@ let run_prog dt (prog : string) (impl : string) : outcome =
             | None -> s := None; sout := "?" :: !sout
             | Some (st', r') ->
               s := Some st';
-              let sstr = status_str dt r' ^ obs_spec_str dt st' in
+              (* SPEC: the caller's axes slice is left as it was passed *)
+              let saxes = (match op with ZReduce (_, _, axes, _) -> ";ax=" ^ fzs axes | _ -> "") in
+              let sstr = status_str dt r' ^ saxes ^ obs_spec_str dt st' in
               sout := sstr :: !sout;
               if !cls = "" && strip_model_only mstr <> sstr then begin
                 (* first step at which the MODEL (the code as it is) leaves the SPEC: the finding
@@ -241,7 +254,7 @@ let run_prog dt (prog : string) (impl : string) : outcome =
                   | Some g -> g f | None -> operand_ids o in
                 let gn = gname (zguard before op) in
                 let gn = if gn = "other" then "L" ^ String.concat "," (List.map (layout_tag before) ids) else gn in
-                cls := f.(0) ^ (if Array.length f > 1 && (f.(0) = "bin" || f.(0) = "bins" || f.(0) = "cmp" || f.(0) = "cmps" || f.(0) = "un") then "." ^ f.(1) else "") ^ ":" ^ gn
+                cls := f.(0) ^ (if Array.length f > 1 && (f.(0) = "bin" || f.(0) = "bins" || f.(0) = "cmp" || f.(0) = "cmps" || f.(0) = "un" || f.(0) = "reduce" || f.(0) = "arg") then "." ^ f.(1) else "") ^ ":" ^ gn
                        ^ ":" ^ symptom (strip_model_only mstr) sstr;
                 (* after a divergence the two states are no longer related *)
                 s := None
